@@ -288,13 +288,36 @@ def steiner_branching(spec):
     return len({a[0] for a in spec.sensitive}) >= 2
 
 
+_GEN = [None]
+
+
 def run_source(source, rep, record=True):
     failed = set()
     if record:
         rep.evaluated()
     try:
         try:
-            h = walk.build_harness(source, {})
+            if source.get("reuse") and source["kind"] == "gen":
+                # the documented class API: one long-lived generator object.  The environment of scenario A is built,
+                # then the generator produces another scenario - what A advertises must not move
+                from nasim.scenarios.generator import ScenarioGenerator
+                from .budget import guarded_generate
+                if _GEN[0] is None:
+                    _GEN[0] = ScenarioGenerator()
+                scn_a = guarded_generate(lambda: _GEN[0].generate(**source["params"]))
+                h = walk.Harness(M.Spec.from_scenario(scn_a), scn_a, {})
+                before = (float(h.env.get_score_upper_bound()), int(h.env.get_minimum_hops()))
+                other = dict(source["params"], r_sensitive=1, r_user=1, num_hosts=source["params"]["num_hosts"] + 1)
+                other.pop("address_space_bounds", None)
+                guarded_generate(lambda: _GEN[0].generate(**other))
+                after = (float(h.env.get_score_upper_bound()), int(h.env.get_minimum_hops()))
+                if record:
+                    rep.count("generator-object-reused")
+                if after != before:
+                    raise Failure("C20:bound-moved", f"upper bound / minimum hops of an environment were {before}; after the same "
+                                  f"ScenarioGenerator object generated another scenario they are {after}")
+            else:
+                h = walk.build_harness(source, {})
         except Failure:
             raise
         except Exception as e:
@@ -394,11 +417,20 @@ def run_source(source, rep, record=True):
         failed.add(f.bucket)
         if record:
             rep.fail(f.bucket, f.detail, dict(source=source))
+    except Exception:
+        # an environment that raises while an episode is played is broken in a way other properties own (C01-C08,
+        # C10); nothing can be said about its bound
+        inside, where = engine.from_nasim(sys.exc_info()[2])
+        if not inside:
+            raise
+        if record:
+            rep.count("episode-raised-inside-nasim(other property)")
     return failed
 
 
 def _shard(shard, seed, tier, n_cases):
     rep = Reporter(PID, tier, RULE)
+    cnt = [0]
 
     @hypothesis.seed(seed)
     @settings(max_examples=n_cases, deadline=None, database=None, phases=[Phase.generate], suppress_health_check=list(HealthCheck))
@@ -417,7 +449,9 @@ def _shard(shard, seed, tier, n_cases):
                 p[k] = 1
         if p.get("base_host_value", 1) > 1:
             p["base_host_value"] = 1
-        run_source({"kind": "gen", "params": p}, rep)
+        cnt[0] += 1
+        # every third one on a long-lived ScenarioGenerator object that generates another scenario afterwards
+        run_source({"kind": "gen", "params": p, "reuse": True} if cnt[0] % 3 == 0 else {"kind": "gen", "params": p}, rep)
     g()
     return rep
 
